@@ -135,14 +135,17 @@ CLAIMED = {
         technique="Lean 4 proofs about the graph construction + edge-by-edge differential check + per-node oracle",
         ref="7/C16"),
     "C06": dict(
-        text="Lean 4, for every molecule description and every oracle: C06_open_accounting (2*|bonds| + |open| = number of descriptors of all residues) and "
-             "C06_every_descriptor_once (a returned molecule without open descriptor has used every descriptor of every residue in exactly one bond: the consumed "
-             "origins are a permutation of all origins), on top of C04/C05's invariants (tree, endpoints). The closability analysis wellPosed is an executable Lean "
-             "definition evaluated by the driver for every input; the check requires every run (recorded streams, and all choice sequences for bounded instances) "
-             "of every molecule it accepts to complete without error, leave nothing open and respect the written element order (oracle on the RDKit molecule).",
-        note="C06_partial: 'wellPosed implies completion for every oracle, within an explicit bound' is not proved; it is tested by the check. wellPosed is "
-             "deliberately conservative (it may reject closable molecules, never the converse as far as tested).",
-        technique="Lean 4 counting/bijection proof over the generation model + executable closability analysis checked against the implementation",
+        text="Lean 4, for every molecule description, every fuel and every oracle: C06_certified_generates — when the decidable certificate check `certify es` (Model/Certify.lean: "
+             "per stochastic object a mode and a set R of descriptor classes that may be open, searched as a least fixed point and then checked: non-negative weights, every class "
+             "can grow into R, can be capped where capping is needed, a descriptor for the right terminal exists after every unit, consecutive elements hand over exactly one "
+             "fitting descriptor) accepts, generation raises none of the implementation's errors and every returned molecule has no open descriptor (Lemmas/Progress.lean: progress "
+             "and preservation through choose, attach, capOne/capAll, addUnit, finalize, growLoop, getStart, genStoch, genToken, genElems); C06_open_accounting and "
+             "C06_every_descriptor_once (a returned molecule without open descriptor has used every descriptor of every residue in exactly one bond) on top of C04/C05's "
+             "invariants. The driver evaluates `certify` and the wider syntactic analysis `wellPosed` for every input; the check requires every run (recorded streams, and all "
+             "choice sequences for bounded instances) of every molecule either accepts to complete without error, leave nothing open and respect the written element order.",
+        note="C06_partial: termination within a bound on the number of oracle events is not a theorem (fuel exhaustion counts as benign); `wellPosed` itself is checked, not proved "
+             "- the evidence reports how many well-posed instances carry a certificate (all of them in the quick tier at the time of writing: certificate:wp+cert vs wp-only).",
+        technique="Lean 4 progress/preservation proof of a decidable closability certificate + counting/bijection proof, model tied by replaying recorded random histories",
         ref="7/C06"),
     "C09": dict(
         text="Decided by composition, without statistics. Lean 4: C09_stop_interval (with strictly increasing cumulative masses, exactly n units iff the target lies in "
